@@ -355,7 +355,8 @@ PROPS["C12"] = dict(
     "while the peer, written in the harness and owning every key but judged by ground truth, speaks one transcript: honest; a frame recorded on an earlier session replayed; a man in the "
     "middle that terminates noise towards the honest dialler and forwards its frame verbatim; a signature by another key over the right session id; the right key over a flipped / "
     "truncated / extended session id; wrong genesis; truncated and empty frames; outbound: a genuine handshake of another identity than the dialled one. Any admission other than the "
-    "honest one is a violation, and the honest one must be admitted as the right identity. Membership of the validator network is enforced by the pool (limit 0), covered below. "
+    "honest one is a violation, and the honest one must be admitted as the right identity. In every third round the claimed / dialled identity is the victim's OWN one (the loopback connection a validator "
+    "keeps to itself): the same transcripts, plus, for the validator network's loopback dial, a remote end that signs nothing and echoes the dialler's own handshake frame (known finding F9: accepted). Membership of the validator network is enforced by the pool (limit 0), covered below. "
     "(pool) PoolWatch (through the verif facade): random insert/remove sequences are diffed against a set + quota reference after every operation, the non-configured quota is "
     "never exceeded and not leaked (after all removes exactly `limit` fresh identities fit); 16 concurrent tasks on few keys with the invariants probed after every operation. "
     "(node) A real node (testonly::Instance: the production Network runner with its listener, preface, handshakes, both pools and RPC services) is attacked by raw peers holding 2-5 gossip "
@@ -366,7 +367,7 @@ PROPS["C12"] = dict(
     assumptions=["held on the generated transcripts / sequences only", "node stage: real sockets and the real clock; a case that hits its 120 s wall-clock watchdog is inconclusive, never a verdict"],
     stages=[dict(name="pool", flavour="release", args={"mode": "pool"}, **NET), dict(name="handshake", flavour="release", args={"mode": "handshake"}, **NET),
             dict(name="node-admission", flavour="release", args={"mode": "node"}, **NET)],
-    floors={"quick": {"honest_admissions": 1000, "adversarial_transcripts_refused": 8000, "inbound_Gossip_relayed-by-mitm": 300, "inbound_Consensus_replayed-from-other-session": 300, "outbound_Gossip_other-identity": 300, "pool_inserts_accepted": 20000, "pool_inserts_refused": 20000, "quota_leak_probes": 3000, "pool_concurrent_rounds": 30,
+    floors={"quick": {"honest_admissions": 1000, "adversarial_transcripts_refused": 8000, "inbound_Gossip_relayed-by-mitm": 200, "inbound_Consensus_replayed-from-other-session": 200, "outbound_Gossip_other-identity": 200, "loopback_outbound_Consensus_signed-by-other-key": 100, "loopback_outbound_Consensus_honest": 100, "loopback_outbound_Consensus_reflected-own-frame": 100, "loopback_inbound_Consensus_signed-by-other-key": 100, "pool_inserts_accepted": 20000, "pool_inserts_refused": 20000, "quota_leak_probes": 3000, "pool_concurrent_rounds": 30,
                       "node_cases": 100, "gossip_connections_served": 100, "validator_connections_served": 40, "repeat_connections_of_an_identity": 200, "outsider_validator_connections_attempted": 40},
             "thorough": {"pool_inserts_accepted": 500000}},
 )
